@@ -1,5 +1,5 @@
 """C01 — adding an exact duration translates the instant exactly."""
-from . import ALL_MODES
+from . import ALL_MODES, T1_CAL, CAL_LEMMAS
 
 ID = "C01"
 LEVEL = "proof"
@@ -9,7 +9,8 @@ FUNCS = [
     "data:TimePoint.__add__", ("data:TimePoint.__sub__", r"^(cal|ord|week)-"),
     ("data:Duration.__add__", r"\+tp-"), "data:Duration.__mul__",
 ]
-LEMMAS = ["opaque.dby.step", "opaque.dby.range", "wiy.range"]
+FUNCS = FUNCS + T1_CAL
+LEMMAS = CAL_LEMMAS + ["opaque.dby.step", "opaque.dby.range", "wiy.range"]
 CANARIES = ["canary.dby.step.wrong"]
 EXPLANATION = (
     "TimePoint.__add__/__sub__(Duration), _tick_over and _tick_over_day_of_month are "
